@@ -864,7 +864,7 @@ def random_part(ctx, chk, ndesigns, ncyc_range, compiled_every, post_every, veri
                     chk.compare(c, backend, init, dflt, hist, py_reads, py_final, r[0][mi], r[1][mi], probes, replay,
                                 'items', tie=tie)
                 sample = None
-                if case['di'] < 2 and mi == 0 and backend in ('sim', 'compiled'):
+                if case['di'] == 0 and mi == 0 and backend in ('sim', 'compiled'):
                     sample = dict(replay, backend=backend, history_first_cycles=hist[:2], reads_first_cycles=r[0][mi][:2])
                 ctx.case(('rand', backend, c.aw, c.dw, repr(init), repr(hist)), nontrivial=nt, sample=sample)
     # the faithful hash-map model (key = low limb of the address) reproduces the wide-address behaviour
@@ -1030,7 +1030,7 @@ def sweep_part(ctx, chk, configs, dflts):
                 ctx.case(('sweep', backend, cfg.nw, cfg.nr, dflt, repr(content), repr(op)),
                          nontrivial=any(e for _, _, e in op[0]) or bool(content),
                          sample=dict(replay, backend=backend, op=op, reads=ir, after=ifin)
-                         if (t == 5 and backend == 'sim' and len(content) == 1 and dflt == 0 and cfg.nw == 1 and cfg.nr == 1) else None)
+                         if (t == 5 and backend == 'sim' and content == [(0, 1)] and dflt == 0 and cfg.nw == 1 and cfg.nr == 1) else None)
         for backend, fl in (('sim', flags[2]), ('fast', flags[3]), ('compiled', flags[4])):
             if backend in results and all_ok.get(backend) and not fl:
                 ctx.model_mismatch('sweep: %s and its Coq model differ on some operation (reads or resulting contents, '
@@ -1093,7 +1093,10 @@ def walk_part(ctx, chk, walks):
                             tie=(fl, None if mfinal is None else [tuple(x) for x in r[1][0]] == mfinal))
             # one case per window of `order` consecutive operations
             for t in range(len(hist) - order + 1):
-                ctx.case(('walk', backend, cfg.nw, cfg.nr, order, dflt, len(content), t), nontrivial=True)
+                ctx.case(('walk', backend, cfg.nw, cfg.nr, order, dflt, len(content), t), nontrivial=True,
+                         sample=dict(replay, backend=backend, window_of_operations=hist[t:t + order],
+                                     reads=r[0][0][t:t + order])
+                         if (t == 100 and backend == 'compiled' and cfg.nw == 1 and not content) else None)
 
 
 # ------------------------------------------------------------------ part 4: the emitted C hash map alone
@@ -1414,7 +1417,7 @@ def run(real_ctx):
                              (2, 1, 2, [[], [(1, 1)]], [0, 1]),
                              (1, 2, 3, [[], [(0, 1)]], [0, 1]),
                              (2, 2, 2, [[], [(1, 0)]], [0])])
-        _timed(ctx, 'random_part', random_part, ctx, chk, ndesigns=900, ncyc_range=(30, 120), compiled_every=1, post_every=2, verilog_every=2)
+        _timed(ctx, 'random_part', random_part, ctx, chk, ndesigns=700, ncyc_range=(30, 120), compiled_every=1, post_every=2, verilog_every=2)
         _timed(ctx, 'rom_part', rom_part, ctx, ndesigns=60, per_design=6)
         _timed(ctx, 'hashmap_part', hashmap_part, ctx, nseq=300, nops=120)
 
